@@ -44,6 +44,7 @@ def main():
     ap.add_argument("--jobs", type=int, default=2)
     ap.add_argument("--fresh", action="store_true")
     ap.add_argument("--only", default=None)
+    ap.add_argument("--again", action="store_true", help="run everything again, each verdict replaced when its run ends (nothing is forgotten first)")
     a = ap.parse_args()
     todo = []
     for d, n, checks in items():
@@ -52,7 +53,7 @@ def main():
         p = os.path.join(VERIF, d, n, "result.json")
         if a.fresh and os.path.exists(p):
             r = json.load(open(p)); r.pop("checks", None); json.dump(r, open(p, "w"), indent=1)
-        if a.fresh or not have(d, n, checks):
+        if a.fresh or a.again or not have(d, n, checks):
             todo.append((d, n, checks))
     light = [(d, n) for d, n, c in todo if "C08" not in c]
     heavy = [(d, n) for d, n, c in todo if "C08" in c]
